@@ -442,7 +442,9 @@ def pure_labelmap_method(prog):
     def pure(recv, meth, call):
         m = lm.lookup(meth)
         if m is None:
-            return meth in ("score_beats_threshold",)
+            # not a label-map method: insertions into local tracking collections do not change what
+            # a guard evaluated earlier established about the label map
+            return True
         for n in walk_no_nested(m.node):
             if isinstance(n, (ast.Assign, ast.AugAssign)):
                 tg = n.targets if isinstance(n, ast.Assign) else [n.target]
@@ -496,14 +498,14 @@ def check_naive(ctx: Ctx, only: Optional[str] = "NaiveThresholdMatching"):
                     if flip:
                         c_ = {"<": ">", ">": "<", "=": "="}[c_]
                     return (a[dec_key], c_) in BEATS_REF
-                v, w = implication(form, prem, beats)
+                v, w = implication(form, prem, beats, atoms.feasible)
                 if stale and v is False:
                     v = None
                 ctx.decide("R03.4a", f, c, construct, "path condition implies: score meets the threshold in the metric's direction (inclusive)", v, {"row": w, "path_condition": pc_txt} if w else {"path_condition": pc_txt})
             else:
                 ctx.violated("R03.4a", f, c, construct, "assignment is not guarded by a comparison of the candidate's score with the matching threshold", {"path_condition": pc_txt})
             # (b) prediction not yet assigned (callee's raise condition excluded => terminates with a result)
-            v, w = implication(form, prem, lambda a: not a["cp"])
+            v, w = implication(form, prem, lambda a: not a["cp"], atoms.feasible)
             if stale and v is False:
                 v = None
             ctx.decide("R03.4b", f, c, construct, "path condition implies: prediction label not yet assigned (at most one reference per prediction; add_labelmap_entry cannot raise)", v, {"row": w, "path_condition": pc_txt} if w else {"path_condition": pc_txt})
@@ -513,7 +515,7 @@ def check_naive(ctx: Ctx, only: Optional[str] = "NaiveThresholdMatching"):
             else:
                 prem_c = prem
             if cls.name == "NaiveThresholdMatching":
-                v, w = implication(form, prem_c, lambda a: not a["cr"])
+                v, w = implication(form, prem_c, lambda a: not a["cr"], atoms.feasible)
                 if stale and v is False:
                     v = None
                 ctx.decide("R03.4c", f, c, construct, "path condition and not allow_many_to_one implies: reference label not yet assigned (one-to-one)", v, {"row": w, "path_condition": pc_txt} if w else {"path_condition": pc_txt})
@@ -521,11 +523,11 @@ def check_naive(ctx: Ctx, only: Optional[str] = "NaiveThresholdMatching"):
                 #     i.e. (not cp and not cr and beats) => PC   -- PC must not be stronger than needed
                 if dec_key and cmp_key:
                     pcf = lambda a, prem=prem: all(p(a) for p in prem)
-                    v, w = implication(form, [lambda a: not a["cp"], lambda a: not a["cr"], beats], pcf)
+                    v, w = implication(form, [lambda a: not a["cp"], lambda a: not a["cr"], beats], pcf, atoms.feasible)
                     ctx.decide("R03.4d", f, c, construct, "an eligible pair whose partners are both unassigned reaches the assignment (maximality)", v, {"row": w, "path_condition": pc_txt} if w else {"path_condition": pc_txt})
                     if m2o:
                         # with many-to-one, an eligible pair with a free prediction is assigned even if the reference is taken
-                        v, w = implication(form, [lambda a: not a["cp"], lambda a, m2o=m2o: a[m2o], beats], pcf)
+                        v, w = implication(form, [lambda a: not a["cp"], lambda a, m2o=m2o: a[m2o], beats], pcf, atoms.feasible)
                         ctx.decide("R03.4e", f, c, construct, "with allow_many_to_one an eligible pair with an unassigned prediction reaches the assignment", v, {"row": w, "path_condition": pc_txt} if w else {"path_condition": pc_txt})
         # R03.5: the loop visits every candidate: no break / return / raise inside the loop
         bad = [n for n in ast.walk(loop) if isinstance(n, (ast.Break, ast.Return, ast.Raise))]
@@ -650,6 +652,11 @@ def check(ctx: Ctx):
     _guarded(ctx, "R03.2", check_candidates)
     _guarded(ctx, "R03.3", check_beats)
     n = _guarded(ctx, "R03.4", check_naive)
+    # completeness of candidate discovery also needs the pair codes not to wrap (R09.1)
+    from . import c09
+
+    _guarded(ctx, "R09.1", c09.check_codec_width)
+    _guarded(ctx, "R09.1", c09.check_codec_width_relational)
     if n < 1:
         ctx.undecided("R03.4.floor", None, None, "floor:R03.4", f"found {n} add_labelmap_entry sites in the threshold matcher, expected >= 1")
 
@@ -700,5 +707,7 @@ VARIANTS = [
     Variant("C03-m-break", "R03.5", "mutant", [(_M, "                continue  # -> doesnt make speed difference", "                break")]),
     Variant("C03-t-guard-explicit", "R03.4", "twin", [(_M, _GUARD, "            taken_pred = pred_label in labelmap.labelmap\n            taken_ref = ref_label in labelmap.labelmap.values()\n            if taken_pred or (taken_ref and not self._allow_many_to_one):\n                continue")]),
     Variant("C03-t-guard-threshold-first", "R03.4", "twin", [(_M, _GUARD + "\n            # TODO always go in here, but add the matching score to the pair (so evaluation over multiple thresholds becomes easy)\n            if self._matching_metric.score_beats_threshold(\n                matching_score, self._matching_threshold\n            ):", "            if not self._matching_metric.score_beats_threshold(\n                matching_score, self._matching_threshold\n            ):\n                continue\n            if not (labelmap.contains_pred(pred_label) or (\n                labelmap.contains_ref(ref_label) and not self._allow_many_to_one\n            )):")]),
+    Variant("C03-t-tracking-sets", "R03.4", "twin", [(_M, _GUARD, "            if pred_label in done_pred or (ref_label in done_ref and not self._allow_many_to_one):\n                continue"), (_M, "        labelmap = InstanceLabelMap()\n\n        pred_arr, ref_arr = (\n            unmatched_instance_pair.prediction_arr,\n            unmatched_instance_pair.reference_arr,\n        )\n        mm_pairs = _calc_matching_metric_of_overlapping_labels(\n            pred_arr, ref_arr, ref_labels, matching_metric=self._matching_metric\n        )", "        labelmap = InstanceLabelMap()\n        done_pred: set[int] = set()\n        done_ref: set[int] = set()\n\n        pred_arr, ref_arr = (\n            unmatched_instance_pair.prediction_arr,\n            unmatched_instance_pair.reference_arr,\n        )\n        mm_pairs = _calc_matching_metric_of_overlapping_labels(\n            pred_arr, ref_arr, ref_labels, matching_metric=self._matching_metric\n        )"), (_M, "                # Match found, increment true positive count and collect IoU and Dice values\n                labelmap.add_labelmap_entry(pred_label, ref_label)\n                # map label ref_idx to pred_idx\n        return labelmap\n\n    @classmethod\n    def _yaml_repr(cls, node) -> dict:\n        return {\n            \"matching_metric\": node._matching_metric,\n            \"matching_threshold\": node._matching_threshold,\n            \"allow_many_to_one\"", "                labelmap.add_labelmap_entry(pred_label, ref_label)\n                done_pred.add(pred_label)\n                done_ref.add(ref_label)\n        return labelmap\n\n    @classmethod\n    def _yaml_repr(cls, node) -> dict:\n        return {\n            \"matching_metric\": node._matching_metric,\n            \"matching_threshold\": node._matching_threshold,\n            \"allow_many_to_one\"")]),
+    Variant("C03-m-tracking-early", "R03.4", "mutant", [(_M, _GUARD, "            if pred_label in seen_pred:\n                continue\n            seen_pred.add(pred_label)\n            if labelmap.contains_ref(ref_label) and not self._allow_many_to_one:\n                continue"), (_M, "        labelmap = InstanceLabelMap()\n\n        pred_arr, ref_arr = (\n            unmatched_instance_pair.prediction_arr,\n            unmatched_instance_pair.reference_arr,\n        )\n        mm_pairs = _calc_matching_metric_of_overlapping_labels(\n            pred_arr, ref_arr, ref_labels, matching_metric=self._matching_metric\n        )", "        labelmap = InstanceLabelMap()\n        seen_pred: set[int] = set()\n\n        pred_arr, ref_arr = (\n            unmatched_instance_pair.prediction_arr,\n            unmatched_instance_pair.reference_arr,\n        )\n        mm_pairs = _calc_matching_metric_of_overlapping_labels(\n            pred_arr, ref_arr, ref_labels, matching_metric=self._matching_metric\n        )")]),
     Variant("C03-t-guard-contains-or", "R03.4", "twin", [(_M, _GUARD, "            if labelmap.contains_pred(pred_label) or (\n                labelmap.contains_or(pred_label, ref_label) and not self._allow_many_to_one\n            ):\n                continue")]),
 ]
